@@ -559,6 +559,9 @@ impl Ctx {
             return;
         }
         let t0 = Instant::now();
+        // thorough tier, checked build: the generated stages of the properties that joined the checked build late run a
+        // quarter of the cases (the exhaustive stages run in full); the evidence reports the actual counts
+        let cases = if self.flavour == "chk" && matches!(self.tier, Tier::Thorough) && !["C02", "C03", "C05", "C17", "C19"].contains(&self.prop) { (cases / 4).max(1) } else { cases };
         let workers = (self.threads.max(1) as u64).min(cases.max(1));
         let per = (cases + workers - 1) / workers;
         let merged = Mutex::new(Local::default());
